@@ -6,6 +6,7 @@
 //   rt    <ty> <value tokens>   -> save, mode(load_from_archive), load : "ok <value tokens> eof=<0|1>"
 //   ssave/sload/srt <ty> ...    -> the same through serialization_traits<T> (only serializable classes, B.* / X.*)
 //   ops   <hex> <op>...         -> raw archive primitives: n (next_chunk_size) r<len> (read_chunk) s (read_chunk_as_string) e (eof)
+//   crt / zrt <ty> <value>      -> cache_interface / session_interface store_data then fetch_data (serializable classes): "ok <value tokens>"
 //   wr    <hex> <hex>...        -> write_chunk of each word; hex of the archive
 //   load+ rt+ sload+ srt+       -> the same, but the object loaded into is pre-populated with junk (load must replace it)
 //
@@ -20,6 +21,12 @@
 // W.T (std::multiset), N.K.V (std::multimap), A<n>.T (T[n], T not arithmetic), p<bytes> also names arithmetic arrays.
 // Value tokens: x<hex> (POD / POD vector bytes), s<hex>, n<count> then the elements, 0 | 1 <value> for pointers.
 #include <cppcms/serialization.h>
+#include <cppcms/service.h>
+#include <cppcms/cache_interface.h>
+#include <cppcms/session_interface.h>
+#include <cppcms/session_pool.h>
+#include <cppcms/http_cookie.h>
+#include <cppcms/json.h>
 #include <sanitizer/asan_interface.h>
 #include <map>
 #include <set>
@@ -277,6 +284,8 @@ struct Ops {
 	std::string (*ssave)(Tok &);
 	std::string (*sload)(std::string const &);
 	std::string (*srt)(Tok &);
+	std::string (*cache)(Tok &);
+	std::string (*session)(Tok &);
 };
 
 template<typename T> std::string do_save(Tok &t)
@@ -355,16 +364,71 @@ template<typename T> std::string do_srt(Tok &t)
 	return out;
 }
 
+// ---- the convenience wrappers: cache_interface::store_data/fetch_data on a thread_shared cache,
+// session_interface::store_data/fetch_data on a session object without HTTP context
+struct no_cookies : public cppcms::session_interface_cookie_adapter {
+	void set_cookie(cppcms::http::cookie const &) {}
+	std::string get_session_cookie(std::string const &) { return std::string(); }
+	std::set<std::string> get_cookie_names() { return std::set<std::string>(); }
+};
+static cppcms::service &the_service()
+{
+	static cppcms::service *srv=0;
+	if(!srv) {
+		cppcms::json::value cfg;
+		cfg["cache"]["backend"]="thread_shared";
+		cfg["cache"]["limit"]=100;
+		cfg["session"]["location"]="server";
+		cfg["session"]["server"]["storage"]="memory";
+		srv=new cppcms::service(cfg);
+	}
+	return *srv;
+}
+template<typename T> std::string do_cache(Tok &t)
+{
+	T v=T(); parse(t,v);
+	cppcms::cache_interface cache(the_service());
+	cache.store_data("k",v);
+	std::string out;
+	try {
+		T w=T();
+		if(prefill) Junk::j(w);
+		if(!cache.fetch_data("k",w)) return "miss";
+		out="ok"; dump(w,out);
+	}
+	catch(cppcms::archive_error const &e) { out=err_kind(e.what()); }
+	return out;
+}
+template<typename T> std::string do_session(Tok &t)
+{
+	T v=T(); parse(t,v);
+	static cppcms::session_pool *pool=0;
+	if(!pool) { pool=new cppcms::session_pool(the_service()); pool->init(); }
+	no_cookies ad;
+	cppcms::session_interface s(*pool,ad);
+	s.load();
+	s.store_data("k",v);
+	std::string out;
+	try {
+		T w=T();
+		if(prefill) Junk::j(w);
+		s.fetch_data("k",w);
+		out="ok"; dump(w,out);
+	}
+	catch(cppcms::archive_error const &e) { out=err_kind(e.what()); }
+	return out;
+}
+
 static std::map<std::string,Ops> registry;
 
 template<typename T> void reg()
 {
-	Ops o={ do_save<T>, do_load<T>, do_rt<T>, 0, 0, 0 };
+	Ops o={ do_save<T>, do_load<T>, do_rt<T>, 0, 0, 0, 0, 0 };
 	registry[TN<T>::name()]=o;
 }
 template<typename T> void regs()
 {
-	Ops o={ do_save<T>, do_load<T>, do_rt<T>, do_ssave<T>, do_sload<T>, do_srt<T> };
+	Ops o={ do_save<T>, do_load<T>, do_rt<T>, do_ssave<T>, do_sload<T>, do_srt<T>, do_cache<T>, do_session<T> };
 	registry[TN<T>::name()]=o;
 }
 
@@ -457,6 +521,8 @@ static std::string run(std::vector<std::string> const &w)
 	if(o2=="rt") return o.rt(t);
 	if(o2=="ssave") return o.ssave ? o.ssave(t) : "bad-op";
 	if(o2=="srt") return o.srt ? o.srt(t) : "bad-op";
+	if(o2=="crt") return o.cache ? o.cache(t) : "bad-op";        // cache_interface::store_data / fetch_data
+	if(o2=="zrt") return o.session ? o.session(t) : "bad-op";    // session_interface::store_data / fetch_data
 	if(o2=="load" || o2=="sload") {
 		if(w.size()!=3) return "bad-op";
 		std::string bytes;
